@@ -95,18 +95,26 @@ class GenLog:
 
 
 def gen_log(rng, nmsgs, start=1672531200, steps=(0, 0, 1, 1, 2, 5, 60, 3600), cont_prob=(1, 4), max_cont=3,
-            maxlen=60, final_newline=True, crlf=False, tag=b'', headless=0, weird=True, body_min=0):
+            maxlen=60, final_newline=True, crlf=False, tag=b'', headless=0, weird=True, body_min=0, frac_choices=None):
     data = bytearray()
     for _ in range(headless):
         data += text_line(rng, 1, maxlen, weird) + b'\n'
     prefix = len(data)
     msgs = []
+    nss = []
     t = start
+    ns = 0
     for k in range(nmsgs):
-        t += rng.pick(steps)
+        step = rng.pick(steps)
+        t += step
+        if frac_choices:
+            # sub-second part: non-decreasing within one second so the log stays chronological
+            cand = [x for x in frac_choices if step > 0 or x >= ns]
+            ns = rng.pick(cand) if cand else ns
+        nss.append(ns)
         off = len(data)
         eol = b'\r\n' if crlf and rng.chance(1, 2) else b'\n'
-        data += fmt_ts(t).encode() + b' ' + tag + text_line(rng, body_min, maxlen, weird) + eol
+        data += fmt_ts(t, frac_ns=(ns if frac_choices else None)).encode() + b' ' + tag + text_line(rng, body_min, maxlen, weird) + eol
         if rng.chance(*cont_prob):
             for _ in range(rng.range(1, max_cont)):
                 kind = rng.below(6)
@@ -123,7 +131,9 @@ def gen_log(rng, nmsgs, start=1672531200, steps=(0, 0, 1, 1, 2, 5, 60, 3600), co
             data = data[:-1]
         o, l, t0 = msgs[-1]
         msgs[-1] = (o, len(data) - o, t0)
-    return GenLog(bytes(data), msgs, prefix)
+    g = GenLog(bytes(data), msgs, prefix)
+    g.ns = nss
+    return g
 
 
 # ------------------------------------------------------------------ containers
